@@ -125,6 +125,27 @@ theorem Refines.run_eq {content : Bytes → Bytes} {I : Impl} (R : Refines conte
     simp only [Impl.run, run, ho]
     rw [ih _ hi (fun o ho' => hops o (by simp [ho'])), ha]
 
+/-- the state after a history -/
+def Impl.runState (I : Impl) : I.σ → List Op → I.σ
+  | s, [] => s
+  | s, op :: ops => I.runState (I.step s op).1 ops
+
+/-- the reference map after a history -/
+def runState : SMap Bytes → List Op → SMap Bytes
+  | m, [] => m
+  | m, op :: ops => runState (next m op) ops
+
+/-- invariant and abstraction follow the history -/
+theorem Refines.reach {content : Bytes → Bytes} {I : Impl} (R : Refines content I) (s : I.σ)
+    (h : R.Inv s) (ops : List Op) (hops : ∀ op ∈ ops, op.WK content) :
+    R.Inv (I.runState s ops) ∧ R.abs (I.runState s ops) = runState (R.abs s) ops := by
+  induction ops generalizing s with
+  | nil => exact ⟨h, rfl⟩
+  | cons op ops ih =>
+    obtain ⟨_, ha, hi⟩ := R.step_ok s op h (hops op (by simp))
+    obtain ⟨h1, h2⟩ := ih _ hi (fun o ho => hops o (by simp [ho]))
+    exact ⟨h1, by simp only [Impl.runState, runState]; rw [h2, ha]⟩
+
 theorem Refines.run_init {content : Bytes → Bytes} {I : Impl} (R : Refines content I)
     (ops : List Op) (hops : ∀ op ∈ ops, op.WK content) :
     I.run I.init ops = run [] ops := by
